@@ -14,10 +14,13 @@ Open Scope string_scope.
 Open Scope N_scope.
 
 (* ---------- JWS: every entry point that calls alg.check_key_type ---------- *)
-(* jws.serialize_compact / deserialize_compact / serialize_json / deserialize_json
-   (flattened and general), rfc7797 compact b64=false (both directions), rfc7797
-   deserialize_json b64=false, jwt.encode / jwt.decode; key given directly or in a
-   KeySet; for EVERY primitive behaviour *)
+(* jws.serialize_compact / deserialize_compact / extract_compact + validate_compact /
+   serialize_json / deserialize_json (flattened and general), rfc7797 compact with b64
+   true and false (both directions), rfc7797 json with b64 true (both directions) and
+   deserialize_json b64=false, jwt.encode / jwt.decode; key given as a Key, in a KeySet
+   (algorithm- or kid-selected), through a callable, or as raw str / bytes; for EVERY
+   primitive behaviour.  The one entry without the type gate is rfc7797.serialize_json
+   with b64=false (jws_has_type_gate = false), see the _by_contract theorem *)
 Theorem c06_jws :
   forall prim e src alg k mat siglen,
     key_wf k -> jws_has_type_gate e = true ->
